@@ -1,5 +1,6 @@
 import LachesisVerif.Model.Confirm
 import LachesisVerif.Model.Orderer
+import LachesisVerif.Proofs.ElectionInv
 /-!
 # C02 — Each block delivers exactly the new ancestry of its Atropos
 
@@ -21,8 +22,12 @@ events and at most `k` parents per event the loop finishes within `n·(k+1) + 1`
 confirmed set (each event is confirmed at most once, a confirmation pushes at most `k` parents,
 every other iteration pops a confirmed event), so with that much fuel the run always finishes;
 `C02_block_total` combines this with the delivered-set theorem (total correctness).
-Not proved: "the Atropos is a root of the frame" (checked by the `cons` stream against the
-reference, which chooses among roots by construction).
+The Atropos is a root (`C02_atropos_is_root`): in every state of the election model reachable from
+`reset` by `processRoot` calls whose roots oracle returns only roots of the asked frame (labelled
+with their slot validator), a returned Atropos `(f, a)` has `f = frameToDecide` and `a` is a root of
+that frame whose slot validator is a member of the validator set. (That the roots table of the real
+store returns exactly the registered roots is C33; that roots are registered for exactly the frames
+`(selfParentFrame, frame]` is C04.)
 -/
 namespace C02
 open Model.Confirm
@@ -331,6 +336,29 @@ theorem onFrameDecided_next (env : Env) (s : OState) (frame atropos : Nat) (hf :
   · intro nv h
     simp only [h, reset]
     exact ⟨by decide, by decide, trivial, trivial⟩
+
+/-! ### the Atropos is a root of the decided frame -/
+
+/-- "each block's Atropos is a root of that frame": `IsSlotRoot f v id` is any predicate such that the
+    roots oracle only returns roots `r` of the asked frame `f` with `IsSlotRoot f r.validator r.id`;
+    `ElectionProofs.Reach` = reachable from `reset vals ftd` by successful `processRoot` calls
+    (arbitrary roots, arbitrary oracles per call). -/
+theorem C02_atropos_is_root (IsSlotRoot : Nat → Nat → Nat → Prop) (vals : Model.Pos.Vals) (ftd : Nat)
+    (hids : (vals.sorted.map (·.1)).Nodup) (hf : ftd < 4294967296) (el el' : Election)
+    (hr : ElectionProofs.Reach IsSlotRoot vals ftd el)
+    (observe : Nat → Nat → Bool) (frameRoots : Nat → List Root) (nr : Root)
+    (hs : ElectionProofs.SoundRoots IsSlotRoot frameRoots) (hn : nr.frame < 4294967296) (f a : Nat)
+    (h : processRoot observe frameRoots el nr = .ok (el', some (f, a))) :
+    f = ftd ∧ ∃ v w, (v, w) ∈ vals.sorted ∧ IsSlotRoot ftd v a :=
+  ElectionProofs.reach_atropos IsSlotRoot vals ftd hids hf el el' hr observe frameRoots nr hs hn f a h
+
+/-- non-vacuity: one validator, root `10·f` in frame `f`; after the root of frame 2 has voted, the
+    root of frame 3 decides and the returned Atropos `(1, 10)` is the root of frame 1 -/
+example : ∃ el el', ElectionProofs.Reach (fun f v id => id = 10 * f ∧ v = 0) ⟨[(0, 1)], 1⟩ 1 el ∧
+    processRoot (fun _ _ => true) (fun f => [⟨10 * f, f, 0⟩]) el ⟨30, 3, 0⟩ = .ok (el', some (1, 10)) :=
+  ⟨_, _, ElectionProofs.Reach.step (res := none) (nr := ⟨20, 2, 0⟩) (observe := fun _ _ => true)
+      (frameRoots := fun f => [⟨10 * f, f, 0⟩]) ElectionProofs.Reach.init
+      (by intro f r hr; simp only [List.mem_singleton] at hr; subst hr; exact ⟨rfl, rfl⟩) (by decide) rfl, rfl⟩
 
 /-! ### non-vacuity: a diamond 4 → {2,3} → 1 with event 1 already confirmed -/
 example : confirmEvents (fun n => if n = 4 then [2, 3] else if n = 2 ∨ n = 3 then [1] else []) 10 [1] 4
